@@ -50,6 +50,8 @@ def configs(name, rng, d, n_classes, thorough):
                 if init == 'array':
                     p['init'] = rng.randn(k, d) if rng.rand() < 0.7 else rng.randint(-3, 4, size=(k, d)) + np.eye(k, d, dtype=int) * 5
                 out.append(p)
+        # an integer array as initial transformation and too few iterations to move away from it
+        out.append({'init': rng.randint(-3, 4, size=(d, d)) + np.eye(d, dtype=int) * 5, 'n_components': None, 'max_iter': 2 if name == 'LMNN' else 0, '_always': True})
     elif name in ('ITML', 'LSML', 'SDML', 'ITML_Supervised', 'LSML_Supervised', 'SDML_Supervised'):
         for prior in ['identity', 'covariance', 'random', 'array']:
             out.append({'prior': spd(rng, d) if prior == 'array' else prior})
@@ -153,7 +155,7 @@ def run(R, tier, seed, driver_ok):
                 y = np.concatenate([y, [y.max() + 1]])
             cfgs = configs(name, rng, dd, n_classes, thorough)
             if not thorough and len(cfgs) > 10:
-                keep = set(rng.choice(len(cfgs), 10, replace=False).tolist())
+                keep = set(rng.choice(len(cfgs), 10, replace=False).tolist()) | {i_ for i_, c_ in enumerate(cfgs) if c_.get('_always')}
                 # stratify: every value of every string-valued option, once with a reduced and once with the full dimension
                 seen = set()
                 for i_, c_ in enumerate(cfgs):
@@ -168,7 +170,7 @@ def run(R, tier, seed, driver_ok):
                 label = name
                 desc = {k: (v if not isinstance(v, np.ndarray) else f'array{v.shape}') for k, v in cfg.items() if not k.startswith('_')}
                 case = {'est': name, 'params': desc, 'X': X, 'y': y}
-                may_reject = bool(cfg.pop('_may_reject', False))
+                may_reject = bool(cfg.pop('_may_reject', False)); cfg.pop('_always', None)
                 p = zoo.default_params(name, rng, dd)
                 p.update(cfg)
                 p = zoo.fix_params(name, p, X, y)
